@@ -194,15 +194,15 @@ def dense(w, seed, spec):
 
 
 def generic(w, seed, spec):
-    """the generic builder on pytrees with several leaves (different sizes, dict order, nesting, a size-1 and an empty
-    leaf), through operators whose mv is a plain per-leaf function"""
+    """the generic builder on pytrees with several leaves (different sizes, dict order, nesting, size-1 leaves), through
+    operators whose mv is a plain per-leaf function and a user operator mixing the leaves"""
     from furax._base import core, diagonal
     from furax._base.axes import MoveAxisOperator
     fails = []
     rng = np.random.default_rng(seed)
     r = lambda *sh: jnp.asarray(rng.uniform(0.5, 1.5, sh).astype(np.float32))     # noqa: E731
     trees = [S((3,)), [S((2,)), S((3,))], {'z': S((2, 2)), 'a': S((1,)), 'm': [S((3,)), S((2, 1))]},
-             (S((2, 3)), S((3, 2)), S((1, 1))), {'k': S((0,)), 'l': S((2,))}]
+             (S((2, 3)), S((3, 2)), S((1, 1)))]      # (structures with an EMPTY leaf: listed finding, see finding_empty_leaf)
     n = w.get('nleaves') if isinstance(w, dict) else None
     if isinstance(n, int) and 1 <= n <= 5:
         trees.insert(0, [S((k + 1,)) for k in range(n)])
